@@ -344,18 +344,27 @@ def preprocess(template: Path, checks, defs=None):
         else:
             lines.append(l)
         i += 1
+    def include(path, depth=0):
+        if depth > 4:
+            raise ExtractError("include nesting too deep")
+        inc = path.read_text()
+        for k, v in (defs or {}).items():
+            inc = inc.replace("{{" + k + "}}", v)
+        inc = inc.replace("CHECKS_PRE_WRITE_BITS", "(value as nat) < pow2(n as nat)," if checks else "")
+        res = []
+        for il in inc.splitlines():
+            if il.strip().startswith("//@HOOK"):
+                res.extend(inject.get(il.split()[1], []))
+            elif il.strip().startswith("//@INCLUDE"):
+                res.extend(include(template.parent / il.split()[1], depth + 1))
+            else:
+                res.append(il)
+        return res
+
     out = []
     for l in lines:
         if l.strip().startswith("//@INCLUDE"):
-            inc = (template.parent / l.split()[1]).read_text()
-            for k, v in (defs or {}).items():
-                inc = inc.replace("{{" + k + "}}", v)
-            inc = inc.replace("CHECKS_PRE_WRITE_BITS", "(value as nat) < pow2(n as nat)," if checks else "")
-            for il in inc.splitlines():
-                if il.strip().startswith("//@HOOK"):
-                    out.extend(inject.get(il.split()[1], []))
-                else:
-                    out.append(il)
+            out.extend(include(template.parent / l.split()[1]))
         else:
             out.append(l)
     return out
@@ -660,7 +669,7 @@ def run_units(repo, verif, obls):
                         results[o.id] = dict(status="undecided", reason=f"function {fn} not present in unit {unit}")
                     else:
                         results[o.id] = dict(status="discharged", backend="verus/z3", time_s=round(per_fn_time, 2), unit=unit)
-                elif any("rlimit" in x.lower() or "resource limit" in x.lower() for x in fl):
+                elif all("rlimit" in x.lower() or "resource limit" in x.lower() for x in fl):
                     results[o.id] = dict(status="undecided", reason="verus resource limit: " + "; ".join(fl)[:300])
                 else:
                     # extract the diagnostic block(s) for the replay file
